@@ -176,6 +176,11 @@ def h_kn(cx):
         g = cx.real('g') + 1.5           # cotangent != 1: kn inside a larger expression
         d = grad(lambda y: g * S.kn(n, y))(x)
         cx.prove_eq(d, -0.5 * g * (scipy.special.kn(abs(n - 1), x) + scipy.special.kn(n + 1, x)), 'kn-derivative')
+        from autograd import elementwise_grad
+        xs = np.array([x, x + 0.5])
+        d2 = elementwise_grad(lambda y: S.kn(n, y) + S.kn(n + 2, y))(xs)        # two kn nodes share one cotangent array
+        want = -0.5 * (scipy.special.kn(abs(n - 1), xs) + scipy.special.kn(n + 1, xs)) - 0.5 * (scipy.special.kn(n + 1, xs) + scipy.special.kn(n + 3, xs))
+        cx.prove_eq(list(d2), list(want), 'kn-derivative of a sum of two kn nodes (shared cotangent)')
         try:
             S.kn(cx.real('nu') + 0.5 if float(cx.real('nu')).is_integer() else cx.real('nu'), x)
         except TypeError:
@@ -218,6 +223,12 @@ def h_kn(cx):
     cx.assume(core.SB(x != 0), 'x != 0')
     cx.fact(K(n + 1, x) * x == K(n - 1, x) * x + 2 * z3.ToReal(n) * K(n, x))
     cx.prove(res == -g * (K(n - 1, x) + K(n + 1, x)) / 2, 'vjp = -g (K_{n-1}+K_{n+1})/2 for every integer n and every cotangent g')
+    # the cotangent autograd hands in is shared with sibling nodes of the graph: it must not be modified in place
+    garr = np.empty(1, dtype=object)
+    garr[0] = g
+    rarr = reg[0][1][1](ans, n, x)(garr)
+    cx.prove(garr[0] == g, 'the cotangent array is not modified in place')
+    cx.prove(np.asarray(rarr, dtype=object).ravel()[0] == -g * (K(n - 1, x) + K(n + 1, x)) / 2, 'vjp on an array cotangent')
     # order check of the primitive itself
     f = ast2smt.fdef(S, 'kn')
     nu = z3.Real('nu')
